@@ -37,6 +37,11 @@ fn from_tape(data: &[u16], tier: Tier, max_depth: u8) -> Option<(usize, Vec<Sear
         };
         priors.push(SearchSpec { fen: f, moves: m, limit: Limit::Depth(1 + t.pick(max_depth as usize) as u8) });
     }
+    let mut main = main;
+    tame(&mut main);
+    for p in priors.iter_mut() {
+        tame(p);
+    }
     Some((hash_mb, priors, main))
 }
 
@@ -380,7 +385,8 @@ pub fn run(run: &mut Run) -> &'static str {
             st.discard();
             return Ok(());
         };
-        let main = SearchSpec { fen: fen.clone(), moves: moves.clone(), limit: Limit::Depth(3 + t.pick(3) as u8) };
+        let mut main = SearchSpec { fen: fen.clone(), moves: moves.clone(), limit: Limit::Depth(3 + t.pick(3) as u8) };
+        tame(&mut main);
         st.eval();
         let mut fresh = PersistentState::new(hash_mb);
         let Some(want) = trace(&mut fresh, &main)? else { return Ok(()) };
